@@ -482,6 +482,9 @@ func genC14(out *Out, r *Rng, tier string, n int, shard int) {
 		for k := 0; k < 6; k++ {
 			emitClaimHex(out, r)
 		}
+		for k := 0; k < 4; k++ {
+			emitDidAuth(out, r)
+		}
 	}
 }
 
